@@ -129,6 +129,12 @@ func (c *Check) checkBare(rule string, fn *ssa.Function, in ssa.Instruction, ch,
 	// the entry is keyed by the known top-level function the operation
 	// belongs to (closures, helpers and goroutine bodies included)
 	owner := p.ownerName(in.Parent())
+	if in.Parent() != fn && p.absorbed(topLevelOf(in.Parent())) {
+		// an operation inside a helper belongs to the function it is reached
+		// from in this enumeration (a helper shared by two callers is judged
+		// once per caller)
+		owner = p.ownerName(fn)
+	}
 	for _, w := range boundedWaits {
 		if w.fn == owner && w.ch == ch && w.kind == kind {
 			ok := w.premise == nil || w.premise(c, in.Parent(), in)
@@ -501,3 +507,10 @@ func sameAddr(a, b ssa.Value) bool {
 	return false
 }
 
+
+func topLevelOf(fn *ssa.Function) *ssa.Function {
+	for fn.Parent() != nil {
+		fn = fn.Parent()
+	}
+	return fn
+}
